@@ -5,6 +5,7 @@ import (
 	"hash/fnv"
 	"reflect"
 	"runtime/debug"
+	"strings"
 	"testing"
 
 	"github.com/ClickHouse/ch-go/proto"
@@ -86,7 +87,7 @@ func runC16(t *testing.T, c *choice.Stream, r *Result, opt RunOpt) {
 		r.Sample = map[string]any{"type": cs.Type, "history": names}
 	}()
 	for i := 0; i < n && r.Outcome != "violation"; i++ {
-		op := []string{"append", "reset", "prepare", "encode", "write", "rawblock", "infer", "decode", "faildecode", "overwrite", "blockdecode"}[c.Weighted("op", 6, 2, 1, 5, 3, 2, 1, 3, 2, 2, 2)]
+		op := []string{"append", "reset", "prepare", "encode", "write", "rawblock", "infer", "decode", "faildecode", "overwrite", "blockdecode", "reinfer"}[c.Weighted("op", 6, 2, 1, 5, 3, 2, 1, 3, 2, 2, 2, 1)]
 		fmt.Fprintf(h, "|%s", op)
 		switch op {
 		case "append":
@@ -136,6 +137,37 @@ func runC16(t *testing.T, c *choice.Stream, r *Result, opt RunOpt) {
 					fail("prepare-failed", "prepare-failed", "Prepare: %v", err)
 				}
 			}
+		case "reinfer":
+			// the column object is reused for a result of another definition of the
+			// same kind (the type arrives with every block): Reset, then Infer(other)
+			inf, ok := col.(proto.Inferable)
+			var alts []string
+			switch {
+			case strings.HasPrefix(cs.Type, "Enum8("):
+				alts = []string{"Enum8('a' = 1, 'b' = 2)", "Enum8('x' = 1, 'y' = 2)", "Enum8('neg' = -128, 'zero' = 0, 'max' = 127, 'x y' = 5)", "Enum8('b' = 1, 'a' = 2, 'c' = 3)"}
+			case strings.HasPrefix(cs.Type, "Enum16("):
+				alts = []string{"Enum16('lo' = -32768, 'a' = 1, 'big' = 300, 'hi' = 32767)", "Enum16('p' = 1, 'q' = 300)", "Enum16('a' = 300, 'big' = 1)"}
+			case strings.HasPrefix(cs.Type, "DateTime64("):
+				alts = []string{"DateTime64(3)", "DateTime64(9)", "DateTime64(6)"}
+			}
+			if !ok || len(alts) == 0 {
+				break
+			}
+			nt := alts[c.Draw("reinfer.to", len(alts))]
+			nrt, err := refproto.ParseType(nt)
+			if err != nil {
+				panic(err)
+			}
+			names = append(names, "reset+infer("+nt+")")
+			col.Reset()
+			model = nil
+			if err := inf.Infer(proto.ColumnType(nt)); err != nil {
+				fail("infer-failed", "infer-other-definition", "Infer(%q) on a reset column that was %q: %v", nt, cs.Type, err)
+				break
+			}
+			cs.Type, cs.RT = nt, nrt
+			mutated = true
+			r.Fire("reinfer")
 		case "infer":
 			names = append(names, "infer")
 			if inf, ok := col.(proto.Inferable); ok {
